@@ -22,6 +22,11 @@ def lookupLast (id : UInt16) : List (UInt16 × WValue) → Option WValue
     | some w => some w
     | none => if i == id then some v else none
 
+/-- `len(fieldMap)`: the number of different identifiers. -/
+def distinctIds : List (UInt16 × WValue) → Nat
+  | [] => 0
+  | (i, _) :: rest => (if rest.any (fun p => p.1 == i) then 0 else 1) + distinctIds rest
+
 def wireEq : Nat → WValue → WValue → Bool
   | 0, _, _ => false
   | fuel + 1, a, b =>
@@ -34,7 +39,7 @@ def wireEq : Nat → WValue → WValue → Bool
     | .double x, .double y => dblEq x y
     | .binary x, .binary y => x == y
     | .struct fa, .struct fb =>
-      fa.length == fb.length &&
+      distinctIds fa == distinctIds fb &&
         fa.all fun f =>
           match lookupLast f.1 fa, lookupLast f.1 fb with
           | some lv, some rv => wireEq fuel lv rv
